@@ -101,7 +101,7 @@ impl JobQueue {
     /// Runs jobs on this queue until there are none left, marking the job as inactive when done
     /// 
     pub (super) fn drain(&self, context: &mut Context) {
-        let _active = ActiveQueue { queue: self };
+        let _active = ActiveQueue::new(self);
 
         debug_assert!(self.core.lock().unwrap().state.is_running());
         let mut done = false;
